@@ -45,7 +45,13 @@ def provenance_check(prog, out, sl, label, bid, bb, field, op, required, note_on
     key = "%s:%s.%s" % (prog.short(bid), label, field)
     site = bi.loc(bb)
     req_s = "%s.%s" % (short_ty(required[0]), required[1])
-    if s.reads(required):
+    nav = {("crate::subscriptions::pulled_message::PulledMessage", "message"), ("crate::topics::topic_message::MessageId", "value"), required}
+    foreign = sorted(f for f in s.fields if (f[0].startswith("crate::") and not f[0].startswith("crate::pubsub_proto")) and f not in nav
+                     and not f[0].endswith("::PushPayloadMessage") and not f[0].endswith("::PushPayload"))
+    if s.reads(required) and foreign and not note_only:
+        out.violation(key, site, "delivered field `%s` is not exactly the published %s: it also takes content from %s" % (
+            field, req_s, ", ".join("%s.%s" % (short_ty(f[0]), f[1]) for f in foreign)))
+    elif s.reads(required):
         out.holds(key, site, "%s is derived from %s (via %s)" % (field, req_s, sorted(c.split("::")[-1] for c in s.calls)[:4]))
     elif not s.complete():
         out.undecided(key, site, "%s: provenance leaves the analysed code (%s)" % (field, sorted(s.roots)[:2]))
@@ -203,8 +209,11 @@ def int_bits(ty):
 def r09_3(prog, out):
     A = prog.anchors
     mid = A.ty("MessageId")
-    ctr = A.cell("TopicActor", "next_message_id")
-    tid = A.cell("TopicActor", "topic_internal_id")
+    ctr = A.cell("TopicActor", "next_message_id", optional=True)
+    tid = A.cell("TopicActor", "topic_internal_id", optional=True)
+    from actorlib import roles
+    R = roles(prog)
+    pub_cone = set(prog.cone(R.publish_body(), follow=("call", "closure", "poll")))
     # (1) who constructs MessageId values
     ctor = None
     for (bid, bb, i, rv) in prog.constructions(mid):
@@ -225,6 +234,10 @@ def r09_3(prog, out):
         for cbb, t in ci.calls(lambda c: prog.qual(cb, c.target) == ctor):
             callers += 1
             key = "id-source:%s" % prog.short(cid)
+            if cid not in pub_cone:
+                out.violation(key, ci.loc(cbb), "message ids are allocated outside the topic actor's publish handler (in %s): allocation is no longer serialised with the "
+                              "acceptance of the messages, so ids do not follow the order in which the topic accepted them (and two tasks can race on the counter)" % prog.short(cid))
+                continue
             o0 = prog.receiver_origin(ci, t.args[0])
             o1 = prog.receiver_origin(ci, t.args[1])
             c0 = cells_of(prog, ci, o0)
@@ -252,7 +265,7 @@ def r09_3(prog, out):
     if callers == 0:
         raise CheckBroken("MessageId constructor is never called")
     # (3) topic_internal_id is fixed at construction; manager next_id strictly increases and is never reset
-    for cell, label in ((tid, "TopicActor.topic_internal_id"),):
+    for cell, label in (((tid, "TopicActor.topic_internal_id"),) if tid else ()):
         ws = [(bid, e) for bid in prog.facts.bodies for e in prog.effects(bid) if e.kind == "write" and not e.chain and e.touches(cell)]
         if ws:
             out.violation("write:%s" % label, prog.loc(ws[0][0], ws[0][1].bb), "%s is modified after construction" % label)
